@@ -24,3 +24,86 @@ func verifLemma_C10_tile_parent_smaller(x uint, y uint, z uint) {
 	t := TileIDFromXYZ(x, y, z)
 	verifrt.Assert(t.Parent() < t, "parent-smaller")
 }
+
+// ---- C39: tag lists as ordered maps -----------------------------------------
+
+func vTag(k string, v string) Tag { return Tag{Key: k, Value: NewStringExpression(v)} }
+
+// vSame: same key and same string value (tag values in these lemmas are string expressions).
+func vSame(a Tag, b Tag) bool {
+	as, aok := a.Value.AnyExpression.(StringExpression)
+	bs, bok := b.Value.AnyExpression.(StringExpression)
+	return a.Key == b.Key && aok && bok && as == bs
+}
+
+// Bounded (lists of three tags with distinct symbolic keys): removing any two
+// keys keeps exactly the other tags, in order.
+func verifLemma_C39_remove_tags_3(k0, k1, k2, v0, v1, v2, a, b string) {
+	verifrt.Assume(k0 != k1 && k0 != k2 && k1 != k2)
+	orig := Tags{vTag(k0, v0), vTag(k1, v1), vTag(k2, v2)}
+	tags := Tags{vTag(k0, v0), vTag(k1, v1), vTag(k2, v2)}
+	tags.RemoveTags([]string{a, b})
+	want := Tags{}
+	for _, t := range orig {
+		if t.Key != a && t.Key != b {
+			want = append(want, t)
+		}
+	}
+	verifrt.Assert(len(tags) == len(want), "remove-tags-length")
+	for i := range want {
+		verifrt.Assert(i < len(tags) && vSame(tags[i], want[i]), "remove-tags-kept-in-order")
+	}
+}
+
+func verifLemma_C39_remove_tag_3(k0, k1, k2, v0, v1, v2, a string) {
+	verifrt.Assume(k0 != k1 && k0 != k2 && k1 != k2)
+	orig := Tags{vTag(k0, v0), vTag(k1, v1), vTag(k2, v2)}
+	tags := Tags{vTag(k0, v0), vTag(k1, v1), vTag(k2, v2)}
+	tags.RemoveTag(a)
+	want := Tags{}
+	for _, t := range orig {
+		if t.Key != a {
+			want = append(want, t)
+		}
+	}
+	verifrt.Assert(len(tags) == len(want), "remove-tag-length")
+	for i := range want {
+		verifrt.Assert(i < len(tags) && vSame(tags[i], want[i]), "remove-tag-kept-in-order")
+	}
+}
+
+func verifLemma_C39_modify_or_add_3(k0, k1, k2, v0, v1, v2, a, va string) {
+	verifrt.Assume(k0 != k1 && k0 != k2 && k1 != k2)
+	orig := Tags{vTag(k0, v0), vTag(k1, v1), vTag(k2, v2)}
+	tags := Tags{vTag(k0, v0), vTag(k1, v1), vTag(k2, v2)}
+	modified, _ := tags.ModifyOrAddTag(vTag(a, va))
+	present := a == k0 || a == k1 || a == k2
+	verifrt.Assert(modified == present, "modify-or-add-reports-presence")
+	if present {
+		verifrt.Assert(len(tags) == 3, "modify-keeps-length")
+	} else {
+		verifrt.Assert(len(tags) == 4 && vSame(tags[3], vTag(a, va)), "add-appends")
+	}
+	for i := range orig {
+		if orig[i].Key == a {
+			verifrt.Assert(vSame(tags[i], vTag(a, va)), "modify-replaces-value")
+		} else {
+			verifrt.Assert(vSame(tags[i], orig[i]), "modify-keeps-others")
+		}
+	}
+	got := tags.Get(a)
+	verifrt.Assert(vSame(got, vTag(a, va)), "get-after-set")
+}
+
+func verifLemma_C39_merge_from_3(k0, k1, k2, v0, v1, v2, o0, o1, w0, w1 string) {
+	tags := Tags{vTag(k0, v0), vTag(k1, v1), vTag(k2, v2)}
+	other := Tags{vTag(o0, w0), vTag(o1, w1)}
+	tags.MergeFrom(other)
+	verifrt.Assert(len(tags) == 2 && vSame(tags[0], other[0]) && vSame(tags[1], other[1]), "merge-replaces-with-shorter")
+	short := Tags{vTag(k0, v0)}
+	short.MergeFrom(other)
+	verifrt.Assert(len(short) == 2 && vSame(short[0], other[0]) && vSame(short[1], other[1]), "merge-replaces-with-longer")
+	clone := other.Clone()
+	clone[0] = vTag(k2, v2)
+	verifrt.Assert(vSame(other[0], vTag(o0, w0)), "clone-is-independent")
+}
